@@ -38,8 +38,9 @@ def prefix_compare_args(F):
             Y = flow.describe(b, t["args"][3], names=True)
             Xe, Ye = flow.describe(b, t["args"][2]), flow.describe(b, t["args"][3])
             short = name.split("::")[-1]
-            if Xe == "Sub(%s, K1).0" % Ye or Xe == "Sub(%s, K1)" % Ye:
-                continue       # X = Y - 1
+            mm = re.match(r"^Sub\((.*), K(\d+)\)(\.0)?$", Xe)
+            if mm and mm.group(1) == Ye and int(mm.group(2)) >= 1:
+                continue       # X = Y - k, k >= 1 (the subtraction itself is overflow-checked)
             m = re.match(r"^var\((\w+)\)$", X)
             if not m:
                 bad.append("%s: cannot relate %s and %s" % (short, X, Y))
